@@ -52,6 +52,21 @@ func c02Spaces(c *explore.Ctx) []wordSpace {
 		add("FL", "BIGC", 0, 3)
 	}
 	sp = append(sp, fl)
+	// hash-seed persistence: a database that becomes empty draws a fresh seed at its next Open; the harness
+	// answers every draw differently, so a seed that is not persisted (or persisted once) shows after a restart
+	rot := wordSpace{Base: "E", Cfg: "BIGC", Depth: 4, Rotate: true}
+	for _, r := range []string{"a", "b", "c"} {
+		rot.Letters = append(rot.Letters, explore.Op{Kind: explore.Put, Key: r})
+	}
+	for _, r := range []string{"a", "b"} {
+		rot.Letters = append(rot.Letters, explore.Op{Kind: explore.Delete, Key: r})
+	}
+	rot.Letters = append(rot.Letters, explore.Op{Kind: explore.Compact})
+	sp = append(sp, rot)
+	rot2 := rot
+	rot2.Base, rot2.Cfg, rot2.Depth = "S2", "ROLL", 4
+	rot2.Letters = append(append([]explore.Op(nil), rot.Letters...), explore.Op{Kind: explore.Delete, Key: "e"})
+	sp = append(sp, rot2)
 	return sp
 }
 
@@ -113,12 +128,17 @@ func runC02(c *explore.Ctx) {
 func runWordC02(c *explore.Ctx, base *explore.Base, sp wordSpace, word []explore.Op, checkFrom int) *explore.Violation {
 	s := base.NewSess()
 	s.FS.Record = true
+	s.RotateSeed = sp.Rotate
+	rot := ""
+	if sp.Rotate {
+		rot = " rotate-seed"
+	}
 	mk := func(w []explore.Op, msg string) *explore.Violation {
 		return &explore.Violation{
-			Key:    fmt.Sprintf("base=%s cfg=%s seed=%d word=%s", sp.Base, sp.Cfg, sp.Seed, explore.WordString(w)),
-			What:   fmt.Sprintf("after [%s] from base %s/%s: %s", explore.WordString(w), sp.Base, sp.Cfg, msg),
+			Key:    fmt.Sprintf("base=%s cfg=%s seed=%d%s word=%s", sp.Base, sp.Cfg, sp.Seed, rot, explore.WordString(w)),
+			What:   fmt.Sprintf("after [%s] from base %s/%s%s: %s", explore.WordString(w), sp.Base, sp.Cfg, rot, msg),
 			Size:   len(w),
-			Replay: map[string]interface{}{"kind": "word02", "base": sp.Base, "cfg": sp.Cfg, "seed": sp.Seed, "word": opsJSON(w), "observed": msg},
+			Replay: map[string]interface{}{"kind": "word02", "base": sp.Base, "cfg": sp.Cfg, "seed": sp.Seed, "rotate": sp.Rotate, "word": opsJSON(w), "observed": msg},
 		}
 	}
 	start := len(s.FS.Log)
@@ -152,7 +172,7 @@ func runWordC02(c *explore.Ctx, base *explore.Base, sp wordSpace, word []explore
 			return nil
 		}
 		c.Add("states_checked", 1)
-		c.Distinct("state", explore.Hash64(sp.Base, sp.Cfg, s.FS.Hash()))
+		c.Distinct("state", explore.Hash64(sp.Base, sp.Cfg, fmt.Sprint(sp.Rotate), s.FS.Hash()))
 		if msg := s.Check(); msg != "" {
 			return mk(w, msg)
 		}
@@ -223,6 +243,7 @@ func init() {
 		explore.PinSeed(seed)
 		s := base.NewSess()
 		s.FS.Record = true
+		s.RotateSeed, _ = rep["rotate"].(bool)
 		if err := s.OpenDB(); err != nil {
 			return "Open: " + err.Error(), nil
 		}
